@@ -17,6 +17,9 @@ Inductive op :=
 | OGrowObserved (id : Z)               (* grow(id) while ANOTHER Crop object queries progress at the moment the
                                           result is written but not yet published *)
 | OGrowWriteFails (ids : list Z)       (* Crop.grow(ids) while writing the result file fails (full disk, quota) *)
+| OTearCheck (id : Z) (keep : bool)     (* result file [id] is torn from outside (truncated, as network file systems have
+                                          been seen to leave it), then check_bad(delete_bad = negb keep) runs; with
+                                          [keep] the torn file is removed by hand afterwards *)
 | OReap (allow : bool) (clean_up : option bool).
 
 Record st := mk_st { s_obj : obj; s_disk : @disk rv; s_fail : list Z; s_kind : Z }.
@@ -91,6 +94,11 @@ Definition step (s : st) (o : op) : st * val :=
   | OCheckBadKeep =>
       let '(bad, _) := check_bad d in
       ok (mk_st ob d (s_fail s) (s_kind s)) [vlist VZ (sort_dedup bad)]
+  | OTearCheck id keep =>
+      (* a torn result no longer has its batch's length: exactly it (and whatever else is bad) is reported *)
+      let d1 := mk_disk (d_info d) (d_batches d) (zset id [] (d_results d)) in
+      let '(bad, d2) := check_bad d1 in
+      ok (mk_st ob (if keep then delete_result d id else d2) (s_fail s) (s_kind s)) [vlist VZ (sort_dedup bad)]
   | OReload => ok (mk_st (reload d) d (s_fail s) (s_kind s)) []
   | OQuery => ok (mk_st (sync ob d) d (s_fail s) (s_kind s)) []
   | OSetFail codes => ok (mk_st ob d codes (s_kind s)) []
